@@ -40,7 +40,7 @@ ASSUMPTIONS = ["trusted base: the ~60-line reference timer set in vf/engines/tim
 SHARDS = {"quick": 4, "thorough": 16}
 FLOORS = {"run_checks": 2000, "pending_checks": 10000, "timeout_bounded": 500, "end_of_step_checks": 2000,
           "eff_cancel": 500, "eff_reset": 200, "eff_delay": 200, "eff_negative_delay": 50, "op_call_in": 200,
-          "refused_AlreadyCalled": 50, "refused_AlreadyCancelled": 50, "compactions": 20, "ties_at_run": 100,
+          "refused_AlreadyCalled": 50, "refused_AlreadyCancelled": 50, "compactions": 20, "compactions_with_cancelled_call_in_staging": 20, "ties_at_run": 100,
           "heap_checks": 2000, "explore_states": 500}
 READY = True
 
@@ -74,10 +74,13 @@ class Run(tm.TimerRun):
     def step(self, a, chk=False):
         r = self.t.r
         c0 = getattr(r, "_cancellations", None)
+        staged0 = self.stats.get("eff_cancel_of_call_created_in_this_run", 0)
         tm.TimerRun.step(self, a, chk)
         heap = getattr(r, "_pendingTimedCalls", None)
         if c0 is not None and c0 > 50 and getattr(r, "_cancellations", None) == 0:
             self.stat("compactions")
+            if self.stats.get("eff_cancel_of_call_created_in_this_run", 0) > staged0:
+                self.stat("compactions_with_cancelled_call_in_staging")
         if heap is None or self.bad:
             return
         try:
